@@ -504,6 +504,11 @@ func (radius *RADIUS) SerializeTo(b gopacket.SerializeBuffer, opts gopacket.Seri
 			if err != nil {
 				return err
 			}
+			// The length field of an attribute also counts its type and length bytes.
+			if v.Length > 253 {
+				return fmt.Errorf("RADIUS attribute value length %d too long", v.Length)
+			}
+			v.Length += 2
 		}
 
 		data[pos] = byte(v.Type)
